@@ -165,8 +165,8 @@ STREAM = {
 }
 
 
-def run_stress(rep, tier, seed, n, only=None, tag="stress"):
-    """returns (status, detail, obs) with status in ok | race | deadlock | broken"""
+def run_stress(rep, tier, seed, n, only=None, tag="stress", test=None):
+    """returns (status, detail, obs) with status in ok | race | deadlock | panic | shallow | broken"""
     st = dict(STREAM)
     if os.environ.get("VERIF_C07_NORACE") == "1":     # experiments only: look at the linearizability check alone
         st["race"] = False
@@ -174,7 +174,7 @@ def run_stress(rep, tier, seed, n, only=None, tag="stress"):
     env = {"VERIF_SEED": seed, "VERIF_N": n, "VERIF_TIER": tier}
     if only is not None:
         env["VERIF_ONLY"] = only
-    rc, out, obs_path = vf.go_run_driver(PID, st["pkg"], st["test"], ov, env=env, race=st.get("race", False),
+    rc, out, obs_path = vf.go_run_driver(PID, st["pkg"], test or st["test"], ov, env=env, race=st.get("race", False),
                                          timeout=st.get("timeout", 1800), tag=tag)
     obs = read_obs_tolerant(obs_path)
     if "WARNING: DATA RACE" in out or "race detected during execution" in out:
@@ -182,9 +182,37 @@ def run_stress(rep, tier, seed, n, only=None, tag="stress"):
         return "race", out[i:i + 6000] if i >= 0 else out[-3000:], obs
     if "C07-DEADLOCK" in out:
         return "deadlock", out[-4000:], obs
+    if "C07-PANIC" in out or "panic:" in out and "goroutine" in out:
+        i = out.find("panic:")
+        return "panic", out[max(i, 0):max(i, 0) + 5000], obs
+    if "C07-SHALLOW-CLONE" in out:
+        return "shallow", out[-3000:], obs
     if rc != 0 or not obs:
         return "broken", out[-3000:], obs
     return "ok", "", obs
+
+
+def selftest(rep, cmds):
+    """self-tests of the extractor; the result is cached by the hash of its sources (they take ~15 s)"""
+    import hashlib
+    d = os.path.join(vf.HARNESS, "tools", "skel")
+    h = hashlib.sha256()
+    for f in ("main.go", "skel_test.go", "go.mod"):
+        h.update(open(os.path.join(d, f), "rb").read())
+    stamp = os.path.join(vf.VERIF, "out", "skel_selftest.ok")
+    key = h.hexdigest()
+    cmds.append("cd harness/tools/skel && go test ./...   (cached by source hash)")
+    if os.path.exists(stamp) and open(stamp).read().strip() == key:
+        rep.obligation("selftest:harness/tools/skel", True)
+        return
+    rc, o = vf.sh(["go", "test", "-count=1", "./..."], cwd=d, env=vf.GOENV, timeout=900)
+    rep.obligation("selftest:harness/tools/skel", rc == 0)
+    if rc == 0:
+        os.makedirs(os.path.dirname(stamp), exist_ok=True)
+        with open(stamp, "w") as f:
+            f.write(key)
+    else:
+        rep.notes.append("extractor self-tests failed: " + o[-1500:])
 
 
 def custom(P, tier, seed, replay=None):
@@ -215,13 +243,8 @@ def custom(P, tier, seed, replay=None):
         if nm.get("notes"):
             rep.notes.append("extractor notes: " + "; ".join(nm["notes"][:10]))
     rep.obligation("example:repo_skel_wf", wf_ok)
-    if tier == "thorough" and not replay:
-        # self-tests of the extractor (constructs it must refuse, translations it must produce)
-        rc, o = vf.sh(["go", "test", "-count=1", "./..."], cwd=os.path.join(vf.HARNESS, "tools", "skel"), env=vf.GOENV, timeout=900)
-        rep.obligation("selftest:harness/tools/skel", rc == 0)
-        cmds.append("cd harness/tools/skel && go test ./...")
-        if rc != 0:
-            rep.notes.append("extractor self-tests failed: " + o[-1500:])
+    if not replay:
+        selftest(rep, cmds)
 
     # 1. proofs
     targets = [t for t in P["coq_targets"]]
@@ -275,8 +298,13 @@ def custom(P, tier, seed, replay=None):
     elif status == "deadlock":
         rep.obligation("stream:stress", False)
         last = obs[-1] if obs else None
-        rep.violation({"kind": "deadlock", "stream": "stress", "how": "operations of the real repository did not return within 20 s",
+        rep.violation({"kind": "deadlock", "stream": "stress", "how": "operations of the real repository did not return within 45 s",
                        "detail": detail, "skeleton_counterexamples": cex, "case": last, "stream_name": "stress"})
+        concrete = True
+    elif status == "panic":
+        rep.obligation("stream:stress", False)
+        rep.violation({"kind": "panic", "stream": "stress", "how": "an operation of the real repository panicked (crash clause)",
+                       "detail": detail, "case": obs[-1] if obs else None, "stream_name": "stress"})
         concrete = True
     elif status == "broken":
         rep.obligation("stream:stress", False)
@@ -297,12 +325,19 @@ def custom(P, tier, seed, replay=None):
             before = len(rep.violations)
             cfpo, nviol = vf.classify_stream(rep, obs, rows, {}, "stress")
             rep.obligation("stream:stress", nviol == 0 and not cfpo)
-            if cfpo:
-                # sequential results explained but real-time order not: cannot happen with a sound witness search; report
-                rep.violation({"kind": "correspondence-broken", "stream": "stress",
-                               "why": "witness order rejected by the Coq checker on %d histories" % len(cfpo),
-                               "case": cfpo[0], "stream_name": "stress"}, no_input=True)
             concrete = len(rep.violations) > before
+            if cfpo and not concrete:
+                # the histories are atomic (explained by the real code run sequentially), but the sequential reference
+                # machine repo_apply computes other results: the repository's SEQUENTIAL behaviour has changed (or the
+                # machine is wrong).  Atomicity is not refuted: DESIGN 4, last row.
+                rep.notes.append("sequential reference repo_apply differs from the real repository on %d literal histories; "
+                                 "every history is atomic w.r.t. the real code" % len(cfpo))
+                rep.violation({"kind": "correspondence-broken", "stream": "stress",
+                               "why": "the real repository, run sequentially, no longer behaves like coq/C07/Model.v repo_apply on %d "
+                                      "histories with literal paths; atomicity (the property) holds on all %d histories of this run"
+                                      % (len(cfpo), len(obs)),
+                               "examples": [{"in": o["in"], "i": o["i"]} for o in cfpo[:3]],
+                               "case": cfpo[0], "stream_name": "stress"}, no_input=True)
             if replay:
                 for pos, o in enumerate(obs):
                     print("REPLAY case=%s linearizable=%s verdict(corr,prop,guards)=%s" %
@@ -310,6 +345,30 @@ def custom(P, tier, seed, replay=None):
                            rows.get(pos, (True, True, []))))
     for o in obs:
         o["stream"] = "stress/" + (o.get("stream") or "")
+
+    # 2b. Tree.Clone is deep (structurally: no shared node / non-empty backing array; behaviourally: mutating the clone
+    # leaves the source's answers unchanged), on trees with wildcards and catch-alls
+    if not replay or replay.get("stream") == "clone":
+        nc = 300 if tier == "quick" else 3000
+        cstatus, cdetail, cobs = run_stress(rep, tier, seed, nc, tag="clone", test="TestVerifC07Clone",
+                                            only=(replay["case"]["i"] if replay and replay.get("case") else None))
+        cmds.append("driver -test.run ^TestVerifC07Clone$ (VERIF_SEED=%s VERIF_N=%s)" % (seed, nc))
+        bad = [o for o in cobs if isinstance(o.get("obs"), dict) and not o["obs"].get("ok", True)]
+        rep.obligation("stream:clone", cstatus == "ok" and not bad)
+        if bad or cstatus == "shallow":
+            rep.violation({"kind": "shallow-clone", "stream": "clone",
+                           "how": "Tree.Clone shares mutable memory with its source (or mutating the clone changed the source's "
+                                  "answers): writers would modify the published tree in place",
+                           "case": bad[0] if bad else (cobs[-1] if cobs else None), "stream_name": "clone", "detail": cdetail[-1500:]})
+        elif cstatus == "race":
+            rep.violation({"kind": "data-race-detected", "stream": "clone", "race_report": cdetail, "case": None})
+        elif cstatus != "ok":
+            rep.notes.append("stream clone: driver failed\n" + cdetail)
+            rep.violation({"kind": "correspondence-broken", "stream": "clone", "why": "driver failed", "detail": cdetail[-1500:],
+                           "case": None}, no_input=True)
+        for o in cobs:
+            o["stream"] = "clone/"
+        obs = obs + cobs
 
     # 3. the skeleton no longer passes the check and the stress run found nothing concrete
     if ok and not wf_ok and not concrete:
